@@ -92,13 +92,23 @@ def tube_distance(src, phi, walls, vels, last_len, delta=1e-5):
     return dist
 
 
+def _att_law(arim, attenuation, k):
+    """attenuation = (a_couplant, a_L, a_T) in Np/m: constant laws; (a_couplant, a_L, a_T, "polynomial", f_MHz): laws that are
+    first-degree polynomials of the frequency in MHz whose value at f_MHz is the given coefficient."""
+    v = attenuation[k]
+    if len(attenuation) > 3 and attenuation[3] == "polynomial":
+        fm = float(attenuation[4])
+        return arim.material_attenuation_factory("polynomial", [0.25 * v, 0.75 * v / fm])
+    return arim.material_attenuation_factory("constant", v)
+
+
 def _couplant(geom, arim, attenuation):
     key = "_couplant"
     _cache = geom
     if key not in _cache:
         kw = {}
         if attenuation:
-            kw["longitudinal_att"] = arim.material_attenuation_factory("constant", attenuation[0])
+            kw["longitudinal_att"] = _att_law(arim, attenuation, 0)
         _cache[key] = arim.Material(longitudinal_vel=geom["c_f"], density=geom["rho_f"], state_of_matter="liquid", **kw)
     return _cache[key]
 
@@ -109,8 +119,8 @@ def _block(geom, arim, attenuation):
     if key not in _cache:
         kw = {}
         if attenuation:
-            kw["longitudinal_att"] = arim.material_attenuation_factory("constant", attenuation[1])
-            kw["transverse_att"] = arim.material_attenuation_factory("constant", attenuation[2])
+            kw["longitudinal_att"] = _att_law(arim, attenuation, 1)
+            kw["transverse_att"] = _att_law(arim, attenuation, 2)
         _cache[key] = arim.Material(longitudinal_vel=geom["c_l"], transverse_vel=geom["c_t"], density=geom["rho_s"],
                                     state_of_matter="solid", **kw)
     return _cache[key]
@@ -219,7 +229,8 @@ def grazing_geometry(rng):
                 c_f=c_f, c_l=c_l, c_t=c_t, rho_f=float(rng.uniform(800, 1300)), rho_s=float(rng.uniform(2000, 9000)))
 
 
-def arim_path(geom, arim, physical=False, attenuation=None, decoy=None, rigid=None, spin=None, crowd=None, int_source=False):
+def arim_path(geom, arim, physical=False, attenuation=None, decoy=None, rigid=None, spin=None, crowd=None, int_source=False,
+              from_end=False):
     """One-point Interfaces, Path and Rays for the traced ray (real arim objects).
     physical=True (immersion geometries only): couplant/block Materials, L/T modes and
     interface kinds / transmission-reflection flags as block_in_immersion builds them, so that
@@ -293,7 +304,8 @@ def arim_path(geom, arim, physical=False, attenuation=None, decoy=None, rigid=No
         path = arim.Path(interfaces, materials, ["L"] * len(vels))
     idx = 0 if decoy is None else 1
     if crowd is not None and decoy is None:
-        idx = crowd // 2
+        # from_end: the same wall sample designated by its position counted from the END of the wall (k - numpoints)
+        idx = crowd // 2 - (crowd if from_end else 0)
     rays = arim.ray.Rays(np.zeros((1, 1)), np.full((npts - 2, 1, 1), idx, arim.settings.INT), path.to_fermat_path())
     path.rays = rays
     if decoy is not None:
